@@ -12,7 +12,9 @@ RULE = ("(a) model seam: create_hydraulic_model on R-pipe-J; (Pmin,Preq) in {(0,
         "{0.5,0.4,0.75,1.0} x requested demand {0,1e-4,0.01,1} x {global, per-junction override of all / each parameter}; the "
         "compiled residual of m.pdd[J] at demand 0 is swept over 400 uniform pressures in [Pmin-5, Preq+5] plus 12 points "
         "around each of the four branch edges; (b) system seam: PDD runs with reservoir heads placing the junction in every "
-        "regime, and a two-junction network where only one junction carries overrides. oracle: zero/full/power-law values, "
+        "regime, and a two-junction network where only one junction carries overrides; (c) dynamic seam: 6-step runs in which a head "
+        "pattern walks the junction through all regimes while the requested demand follows a pattern and a time control changes "
+        "one per-junction parameter {none, required_pressure, minimum_pressure, pressure_exponent} at 2 h. oracle: zero/full/power-law values, "
         "monotone, continuous, overrides local. non-trivial: grid covers all five branches and D>0")
 
 PAIRS = [(0.0, 20.0), (3.516, 21.097), (5.0, 5.5), (0.0, 0.2)]
@@ -53,6 +55,13 @@ def cases(tier):
             out.append({"seam": "system", "pmin": pmin, "preq": preq, "exp": e, "mode": mode, "rhead": round(pmin + h * (preq - pmin) / 20.0 + 0.3, 6)})
     for (pmin, preq), e in itertools.product(PAIRS, EXPS):
         out.append({"seam": "override-local", "pmin": pmin, "preq": preq, "exp": e})
+    # (c) dynamic seam: a 6-step run in which a reservoir head pattern walks the junction through all regimes, the requested
+    # demand follows a pattern, and (optionally) a time control changes one per-junction parameter at t = 2 h
+    for (pmin, preq), e, mode in itertools.product(PAIRS, EXPS, ("global", "junction_all")):
+        if tier == "quick" and (e not in (0.5, 1.0) or (pmin, preq) == (0.0, 0.2)):
+            continue
+        for chg in (None, "required_pressure", "minimum_pressure", "pressure_exponent"):
+            out.append({"seam": "dynamic", "pmin": pmin, "preq": preq, "exp": e, "mode": mode, "change": chg})
     return out
 
 
@@ -168,5 +177,42 @@ def override_local(c):
     return {"viol": viol, "nontrivial": True, "outcome": "override", "counts": {"system_runs": 2}}
 
 
+def dynamic_seam(c):
+    import wntr
+    from wntr.network import controls as C
+    pmin, preq, e = c["pmin"], c["preq"], c["exp"]
+    o, j = params(c["mode"], pmin, preq, e)
+    w = preq - pmin
+    heads = [2.0 + pmin - 1.0, 2.0 + pmin + 0.3 * w, 2.0 + pmin + 0.7 * w, 2.0 + preq + 5.0, 2.0 + pmin + 0.5 * w, 2.0 + pmin + 0.85 * w, 2.0 + pmin + 0.15 * w]
+    dmul = [1.0, 2.0, 0.5, 1.5]
+    s = spec([R("R", 1.0, head_pat="HP"), J("J", 2.0, [[0.01, "DP", None]], **j)], [P("p", "R", "J", L=100.0, D=0.3)],
+             OPTS(dur=6 * 3600, dm="PDD", **o), patterns={"HP": heads, "DP": dmul})
+    wn = build(s)
+    new = {"required_pressure": preq + 0.5 * w, "minimum_pressure": pmin + 0.4 * w, "pressure_exponent": 0.75 if e != 0.75 else 0.5}.get(c["change"])
+    if c["change"]:
+        wn.add_control("chg", C.Control(C.SimTimeCondition(wn, "=", 2 * 3600), C.ControlAction(wn.get_node("J"), c["change"], new)))
+    r = simulate(s, wn=wn)
+    if r.error:
+        return {"viol": [{"key": "dynamic:run-fails", "what": "PDD run with a %s change does not complete: %s" % (c["change"], r.warnings[:1])}], "nontrivial": True, "outcome": "dynamic:fails", "counts": {"system_runs": 1}}
+    viol, regimes = [], set()
+    for i, t in enumerate(r.times):
+        pm, pq, ex = pmin, preq, e
+        if c["change"] and t >= 2 * 3600:
+            pm, pq, ex = (new if c["change"] == "minimum_pressure" else pm), (new if c["change"] == "required_pressure" else pq), (new if c["change"] == "pressure_exponent" else ex)
+        D = 0.01 * dmul[(t // 3600) % len(dmul)]
+        p, d = float(r.node["pressure"]["J"][i]), float(r.node["demand"]["J"][i])
+        regimes.add("below" if p <= pm else ("above" if p >= pq else "between"))
+        if pm + DELTA < p < pq - DELTA or p <= pm or p >= pq:
+            if abs(d - D * gref(p, pm, pq, ex)) > 1e-6:
+                viol.append({"key": "dynamic-curve" + (":after-%s-change" % c["change"] if c["change"] and t >= 7200 else ""),
+                             "what": "t=%d: reported demand %.9g at reported pressure %.9g, documented %.9g (parameters in force Pmin=%g Preq=%g e=%g, requested %.4g, %s%s)" % (
+                                 t, d, p, D * gref(p, pm, pq, ex), pm, pq, ex, D, c["mode"], (", %s set to %g at t=7200" % (c["change"], new)) if c["change"] else "")})
+                break
+        elif not (-1e-9 <= d <= D + 1e-9):
+            viol.append({"key": "dynamic-curve", "what": "t=%d: reported demand %.9g outside [0, D=%.4g] at pressure %.9g" % (t, d, D, p)})
+            break
+    return {"viol": viol, "nontrivial": len(regimes) == 3, "outcome": "dynamic:%s" % (c["change"] or "static"), "counts": {"system_runs": 1, "dynamic_steps": len(r.times)}}
+
+
 def run_case(c):
-    return {"model": model_seam, "system": system_seam, "override-local": override_local}[c["seam"]](c)
+    return {"model": model_seam, "system": system_seam, "override-local": override_local, "dynamic": dynamic_seam}[c["seam"]](c)
